@@ -399,6 +399,18 @@ impl Gen {
                 self.script.push_back(Op::Get { k: self.rng.below(n as u64) as u32 });
             }
             self.script.push_back(Op::Sync);
+            if self.rng.chance(1, 2) {
+                // one entry grows to the whole capacity: far more than one eviction batch has to go,
+                // and the maintenance runs that follow find no queued writes
+                let vid = self.vid();
+                let w = cfg.cap.unwrap_or(1000).min(u32::MAX as u64 / 2) as u32;
+                self.script.push_back(Op::Insert { k: self.rng.below(n as u64) as u32, vid, w });
+                self.script.push_back(Op::Sync);
+                self.script.push_back(Op::Get { k: 0 });
+                self.script.push_back(Op::Sync);
+                self.script.push_back(Op::Contains { k: 1 });
+                self.script.push_back(Op::Sync);
+            }
             return;
         }
         for k in 0..n {
